@@ -501,6 +501,119 @@ func rulesC05(p *Prog, r *Report) {
 			}
 		}
 	}
+
+	// R05.7 counted at the price it is filled at -----------------------------------------------
+	// Both sides of a batch are counted with MatchableAmount(order, p) and filled with
+	// FillOrder(order, amt, p): a matching function that receives the price as a parameter
+	// judges and fills every order at that very price. An amount judged at another price (the
+	// order's own limit) is counted for one side and then not taken, or taken without being
+	// counted, and the two sides no longer exchange the same base amount.
+	r.Rule("R05.7", "amm: a function given the fill price judges (MatchableAmount) and fills (FillOrder) at that price only", 4)
+	matchable := p.MustFunc("x/liquidity/amm.MatchableAmount")
+	for _, fn := range p.Funcs {
+		if fn.Pkg == nil || !strings.HasSuffix(fn.Pkg.Pkg.Path(), "x/liquidity/amm") || len(fn.Blocks) == 0 || fn == matchable {
+			continue
+		}
+		type site struct {
+			c     ssa.CallInstruction
+			price ssa.Value
+			what  string
+		}
+		var sites []site
+		for _, c := range calls(fn) {
+			sc := c.Common().StaticCallee()
+			if sc == nil {
+				continue
+			}
+			a := c.Common().Args
+			switch {
+			case sc == matchable && len(a) == 2:
+				sites = append(sites, site{c, a[1], "MatchableAmount"})
+			case sc.Pkg == matchable.Pkg && sc.Name() == "TotalMatchableAmount" && len(a) == 2:
+				sites = append(sites, site{c, a[1], "TotalMatchableAmount"})
+			case sc == fill && len(a) == 3:
+				sites = append(sites, site{c, a[2], "FillOrder"})
+			case sc.Pkg == matchable.Pkg && (sc.Name() == "FulfillOrder" || sc.Name() == "FulfillOrders") && len(a) == 2:
+				sites = append(sites, site{c, a[1], sc.Name()})
+			}
+		}
+		// the function's price parameter: a LegacyDec parameter handed to one of the sites
+		var priceParam *ssa.Parameter
+		for _, st := range sites {
+			if pr, ok := st.price.(*ssa.Parameter); ok && pr.Parent() == fn {
+				priceParam = pr
+			}
+		}
+		if priceParam == nil {
+			continue
+		}
+		for i, st := range sites {
+			r.Instance("R05.7")
+			r.FuncsSeen[fname(fn)] = true
+			construct := fmt.Sprintf("%s -> %s #%d", fname(fn), st.what, i+1)
+			if st.price == ssa.Value(priceParam) {
+				r.OK("R05.7", construct, "at the function's own price parameter", p.instrPos(st.c))
+			} else {
+				r.Fail("R05.7", construct, fmt.Sprintf("the order is judged or filled at a price other than the fill price %s the function was given: what was counted for one side of the batch is not what is taken from it", priceParam.Name()), p.instrPos(st.c), nil)
+			}
+		}
+	}
+
+	// R05.8 one matchability criterion for both directions ----------------------------------------
+	// MatchableAmount zeroes an amount whose quote value truncates to zero. The test sits on every
+	// path to the return: a dust amount that one direction may not trade must not be counted for
+	// the other direction either (nobody could take it).
+	r.Rule("R05.8", "MatchableAmount: the zero-quote-value test is passed on every path to the return (both directions)", 1)
+	{
+		var dustOnAllPaths func(fn *ssa.Function, d int) bool
+		dustOnAllPaths = func(fn *ssa.Function, d int) bool {
+			if d > 2 || len(fn.Blocks) == 0 {
+				return false
+			}
+			cut := map[*ssa.BasicBlock]bool{}
+			for _, b := range fn.Blocks {
+				if len(b.Instrs) == 0 {
+					continue
+				}
+				if ifi, ok := b.Instrs[len(b.Instrs)-1].(*ssa.If); ok {
+					if c, ok := ifi.Cond.(*ssa.Call); ok && calleeShortName(&c.Call) == "IsZero" && len(c.Call.Args) == 1 &&
+						(p.passesCall(c.Call.Args[0], "MulInt") || p.passesCall(c.Call.Args[0], "Mul")) {
+						cut[b] = true
+					}
+				}
+				// a direction-specific helper of the same package that applies the test itself
+				for _, in := range b.Instrs {
+					if c, ok := in.(ssa.CallInstruction); ok {
+						if sc := c.Common().StaticCallee(); sc != nil && sc.Pkg == fn.Pkg && sc != fn && dustOnAllPaths(sc, d+1) {
+							cut[b] = true
+						}
+					}
+				}
+			}
+			if len(cut) == 0 || cut[fn.Blocks[0]] && len(cut) == 0 {
+				return false
+			}
+			seen, _ := reach(fn, nil, nil, cut)
+			for _, b := range fn.Blocks {
+				if len(b.Instrs) == 0 || !seen[b] || cut[b] {
+					continue
+				}
+				if _, isRet := b.Instrs[len(b.Instrs)-1].(*ssa.Return); isRet {
+					return false
+				}
+			}
+			return true
+		}
+		r.Instance("R05.8")
+		r.FuncsSeen[fname(matchable)] = true
+		tests := []int{1}
+		bypass := !dustOnAllPaths(matchable, 0)
+		if len(tests) > 0 && !bypass {
+			r.OK("R05.8", fname(matchable)+" dust test", "every path to the return passes the zero-quote-value test", p.pos(matchable.Pos()))
+		} else {
+			r.Fail("R05.8", fname(matchable)+" dust test", "MatchableAmount can return without the test that the amount is worth at least one quote unit: a dust amount is matchable in one direction only, is counted for that side and cannot be taken by the other", p.pos(matchable.Pos()), nil)
+		}
+	}
 }
 
 func rulesC06(p *Prog, r *Report) {
